@@ -98,7 +98,7 @@ def random_case(rng, side):
         cls = "empty" if total == 0 else rng.choice(["doc", "doc", "doc", "docws", "trailing", "truncated", "malformed",
                                                      "unknown", "wrongtype"])
         kind = rng.choice(["std", "std", "optional"])
-        ct = rng.choice(["exact", "exact", "exact", "params", "other", "wildcard", "garbage", "absent"])
+        ct = rng.choice(["exact", "exact", "exact", "params", "other", "near", "wildcard", "garbage", "absent"])
         limit = -1 if kind == "optional" else rng.choice([-1, total - 1, total, total + 1])
         if limit < -1:
             limit = -1
@@ -108,7 +108,7 @@ def random_case(rng, side):
                                                  "wrongtype"])
     ret = rng.choice(["unit", "value", "value", "default", "binary", "optbinary"])
     status = 204 if (total == 0 and rng.chance(1, 2)) else 200
-    ct = "absent" if status == 204 else rng.choice(["json", "json", "json", "jsonparams", "octet", "other", "absent"])
+    ct = "absent" if status == 204 else rng.choice(["json", "json", "json", "jsonparams", "octet", "other", "near", "absent"])
     return {"side": "client", "h": h, "total": total,
             "par": {"kind": "", "ct": ct, "limit": -1, "cls": cls, "ret": ret, "status": status}}
 
